@@ -2,11 +2,15 @@
 
 MC/IX: MC_Cyclepoints, peak-first analysis, every raw signal x filtered-sign pattern up to the bound: TableWF and
        one-row-per-cycle are INVARIANTs of the stage machine; the rows are compared with the real compute_cyclepoints.
+MC/IX: MC_Pipeline, the whole analysis as ONE stage machine (extrema -> FindZerox -> Assemble -> ComputeShape -> ComputeBurstFeat -> DetectBursts)
+       over every signal x every placement of 8 alternating extrema x both centrings, the complete returned table compared with the real
+       compute_features (find_extrema replaced by TLC's placement): the glue between the stages (negation / renaming, column routing, labels).
 TV   : the generated corpus over the full option grid through compute_features and Bycycle.fit; Trace_Pipeline checks
        totality under the precondition (evaluated on the recorded sign pattern), the rows against Assemble(spec), TableWF
        on the returned sample columns, the column set and return_samples.
 """
 import mc_cyc
+import mc_feat
 import pipeline
 
 PREFIXES = ['C01.']
@@ -19,10 +23,13 @@ def run(ctx):
                        'TLC, the JSON projection of tables and the harness-side interposition are trusted']
     if ctx.quick:
         mc_cyc.run_cyclepoints(ctx, 'C01', 8, 1, [0, 1], [0])
+        mc_feat.run_pipeline(ctx, 'C01', 9, 1)          # the whole analysis as one stage machine, end to end
         pipeline.run_corpus(ctx, 260, PREFIXES, seed_offset=1, via_object_every=4, max_len=900)
     else:
         mc_cyc.run_cyclepoints(ctx, 'C01', 9, 1, [0, 1, 2], [0])
         mc_cyc.run_cyclepoints(ctx, 'C01', 7, 2, [0, 1], [0])
+        mc_feat.run_pipeline(ctx, 'C01', 10, 1)
+        mc_feat.run_pipeline(ctx, 'C01', 8, 2)
         pipeline.run_corpus(ctx, 4000, PREFIXES, seed_offset=1, via_object_every=4, max_len=2600)
 
 
